@@ -6,6 +6,7 @@ pub mod boxmodel;
 pub mod coll;
 pub mod crossarena;
 pub mod decoders;
+pub mod retry;
 pub mod env;
 pub mod grid;
 pub mod overflow;
